@@ -146,7 +146,7 @@ func (p *program) sourceHash() string {
 // the user cache directory, keyed by a hash of the repository's non-test .go files (of the packages
 // the extractor can reach), go.mod, and the extractor's own version string.
 
-const extractorVersion = "c08-extract-v3"
+const extractorVersion = "c08-extract-v4"
 
 func repoDirQuick() (string, error) {
 	cmd := exec.Command("go", "list", "-m", "-f", "{{.Dir}}", repoModule)
